@@ -87,10 +87,12 @@ class Scheduler(callbacks.Plugin):
             try:
                 if event['type'] == 'single': # non-repeating event
                     n = None
-                    if schedule.schedule.counter > int(name):
+                    if schedule.schedule.counter > int(name) and \
+                            int(name) not in schedule.schedule.events:
                         # counter not reset, we're probably reloading the plugin
                         # though we'll never know for sure, because other
-                        # plugins can schedule stuff, too.
+                        # plugins can schedule stuff, too: keep the id only
+                        # if none of their events uses it.
                         n = int(name)
                     # Here we use event.get() method instead of event[]
                     # This is to maintain compatibility with older bots
